@@ -343,6 +343,22 @@ func (r *C15Run) Exec(line string) error {
 		}
 		r.sb.Ipt.Load("filter", t)
 		r.foreign = r.takeDump().Foreign().Canon()
+	case "drift":
+		var seed int64
+		if len(w) != 2 {
+			return fmt.Errorf("bad line %q", line)
+		}
+		fmt.Sscanf(w[1], "%d", &seed)
+		r.drift(seed)
+		r.rep.Hit("op:drift")
+	case "sadd", "sdel":
+		if len(w) < 3 {
+			return fmt.Errorf("bad line %q", line)
+		}
+		if err := r.sedit(w[0] == "sadd", w[1], strings.Join(w[2:], " ")); err != nil {
+			return err
+		}
+		r.rep.Hit("op:" + w[0])
 	case "fault":
 		if len(w) != 4 || w[1] != "ipset-create" {
 			return fmt.Errorf("bad line %q", line)
@@ -1019,6 +1035,15 @@ func GenHistory(rg *rand.Rand) []string {
 			ops = append(ops, "fullsync "+last, "check "+last)
 			return ops
 		}
+	}
+	// ---- drift: the same process, the same desired state A, the kernel moved away from it in between
+	if rg.Intn(4) == 0 {
+		if prior == 0 {
+			ops = append(ops, "fullsync A")
+		}
+		ops = append(ops, DriftOps(rg, a, emitWorld)...)
+		ops = append(ops, "fullsync A", "check A")
+		return ops
 	}
 	// ---- from A to B
 	switch rg.Intn(3) {
